@@ -18,6 +18,16 @@
 #undef toupper
 #endif
 
+/* snprintf: CBMC has no body for it (the call would leave the buffer
+ * untouched).  Calls in url.c go to vp_snprintf (env.h), an exact model of
+ * the one format the parser uses, snprintf(buf, n, "%s", str); any other
+ * format trips an assertion. */
+#include <stdio.h>
+#ifdef VP_CBMC
+int vp_snprintf(char *dst, size_t n, const char *fmt, ...);
+#define snprintf vp_snprintf
+#endif
+
 /* module-local ghosts */
 size_t g_exit;          /* url_utf8_validate: offset of the scan pointer at return (woven before every return) */
 size_t g_alloc_refused; /* number of non-empty allocation requests the allocator refused */
@@ -108,5 +118,56 @@ uint8_t g_w[11];
 	    (g_k >= 4 && !U8_WIN_GOOD(4)))
 
 #define U8P(p) ((uint8_t *) (p))
+
+/* pre-state snapshot of the ghost window (woven at function entry, read by
+ * vp/replay.py from counterexample traces) */
+#define VP_SNAP_U8()                                                         \
+	uint8_t vp_in_w0 = g_w[0], vp_in_w1 = g_w[1], vp_in_w2 = g_w[2],      \
+	        vp_in_w3 = g_w[3], vp_in_w4 = g_w[4], vp_in_w5 = g_w[5],      \
+	        vp_in_w6 = g_w[6], vp_in_w7 = g_w[7], vp_in_w8 = g_w[8],      \
+	        vp_in_w9 = g_w[9], vp_in_w10 = g_w[10];                       \
+	size_t vp_in_k = g_k, vp_in_n = g_n
+
+/* ------------------------------------------------------------------------
+ * nng_url representation (core/url.h): all components live in ONE storage
+ * area, either the inline array u_static[128] (u_bufsz == 0, u_buffer ==
+ * u_static) or a heap block of u_bufsz bytes.
+ * ---------------------------------------------------------------------- */
+#define URL_INLINE_SZ ((size_t) NNG_MAXADDRLEN)
+#define URL_HEAP_MAX ((size_t) 1 << 40)
+#define URL_STORE(u) ((u)->u_bufsz != 0 ? (u)->u_bufsz : URL_INLINE_SZ)
+/* component pointer: NULL or inside the storage area (precondition form) */
+#define URL_COMP_PRE(u, c)                                        \
+	((u)->c == NULL ||                                        \
+	    __CPROVER_pointer_in_range_dfcc((u)->u_buffer, (u)->c, \
+	        (u)->u_buffer + (URL_STORE(u) - 1)))
+#define URL_STORAGE_PRE(u)                                                  \
+	(((u)->u_bufsz == 0 &&                                              \
+	     __CPROVER_pointer_in_range_dfcc(                               \
+	         &(u)->u_static[0], (u)->u_buffer, &(u)->u_static[0])) ||   \
+	    ((u)->u_bufsz != 0 && (u)->u_bufsz <= URL_HEAP_MAX &&           \
+	        __CPROVER_is_fresh((u)->u_buffer, (u)->u_bufsz)))
+/* "d->c is the clone of s->c": NULL iff NULL, else same offset in d's own
+ * storage */
+#define URL_COMP_CLONED(d, s, c)                  \
+	((d)->c ==                                \
+	    (((s)->c == NULL) ? (char *) NULL     \
+	                      : (d)->u_buffer + ((s)->c - (s)->u_buffer)))
+/* ---- scheme table (url.c nni_schemes[]: 35 entries, longest 8 chars) ---- */
+#define URL_NSCHEMES 35
+#define URL_SCHEME_MAXLEN 8
+/* no NUL in s[0..j] / s has length exactly j (j <= 8) */
+#define SCH_NO_NUL_UPTO(s, j, v) \
+	__CPROVER_forall { size_t v; (v < 9) ==> ((v <= (j)) ==> (s)[v] != 0) }
+#define SCH_LEN_IS(s, j, v) \
+	((s)[(j)] == 0 &&   \
+	    __CPROVER_forall { size_t v; (v < 9) ==> ((v < (j)) ==> (s)[v] != 0) })
+
+#define VP_SNAP_URL(u)                                                     \
+	size_t vp_in_bufsz = (u)->u_bufsz, vp_in_host = ((u)->u_hostname != NULL), \
+	       vp_in_user = ((u)->u_userinfo != NULL),                         \
+	       vp_in_query = ((u)->u_query != NULL),                           \
+	       vp_in_frag = ((u)->u_fragment != NULL)
+
 
 #endif
